@@ -375,6 +375,15 @@ class Kernel(object):
                 p.hb = self.heartbeat_frozen(p)
                 self.trace.append(("died", p.pid, ev[2], round(self.clock, 2)))
             self.deliver(real_signal.SIGCHLD)
+        elif kind == "bootfail":
+            # nothing can boot any more (broken application / hook): every live worker exits with the boot-error status, one after
+            # the other, at the arbiter's next system-call boundaries - including those of an already running halt()
+            for p in live:
+                if p.die_in is None:
+                    p.status = ev[1]
+                    p.die_in = self.draw(3)
+            if live:
+                self.die(live[0], ev[1])
         elif kind == "tick":
             pass
 
